@@ -32,6 +32,20 @@ CLAIMED['C19'] = dict(
     technique='Coq invariant proofs over scheduler-labelled LTS models; hand-written model tied by differential correspondence',
     design='5/C19')
 
+CLAIMED['C13'] = dict(
+    text='Machine-checked proof (Coq 8.16.1) about definitions REGENERATED from the source on every run: a fail-closed ast '
+         'translator transcribes read_lines_by_key / assign_key / peek_textio.write into Gen/PeekFuns.v and pins the shape '
+         'of the wiring around them; theorems for every list of writes (every interleaving, every splitting into partial '
+         'writes, every text): each reported piece ends at a newline, per trace the reported text is exactly the longest '
+         'prefix of what the trace wrote that ends in a newline (exactly once, in order), interleaving independence, '
+         'untraced text is never reported, the real stdout receives everything. Correspondence: the real closures on '
+         'generated and exhaustive short write sequences, and generated printing programs (threads, tasks, partial '
+         'writes, debugger-output commands) through the real spawned-side code, vs the model (vm_compute) and a direct oracle.',
+    note='Trusted: Coq kernel; the translator and Stdout/Prim.v (meaning of the recognised Python constructs); harness. '
+         'Modelled: GIL atomicity of dict ops on distinct keys; current_trace_no() constant during one write. No axioms.',
+    technique='Coq list-induction proofs over a model regenerated from source by a fail-closed ast translator + differential correspondence',
+    design='5/C13')
+
 NOT_YET = {
 }
 
